@@ -131,16 +131,25 @@ class LeanEP:
     """One interactive driver process; `run(case_text, mode)` returns (status, states, calls)."""
 
     def __init__(self):
+        # own process group: `lake env` spawns `lean` as a child; killing only the wrapper would leave it running
         self.p = subprocess.Popen(["lake", "env", "lean", "--run", "Driver/EP.lean"], cwd=common.LEAN_DIR,
                                   stdin=subprocess.PIPE, stdout=subprocess.PIPE, stderr=subprocess.PIPE,
-                                  text=True, bufsize=1)
+                                  text=True, bufsize=1, start_new_session=True)
+
+    def kill(self):
+        import os
+        import signal
+        try:
+            os.killpg(os.getpgid(self.p.pid), signal.SIGKILL)
+        except (ProcessLookupError, PermissionError):
+            pass
 
     def close(self):
         try:
             self.p.stdin.close()
             self.p.wait(timeout=20)
         except Exception:  # noqa: BLE001
-            self.p.kill()
+            self.kill()
 
     def __enter__(self):
         return self
@@ -159,7 +168,7 @@ class LeanEP:
 
             def _kill():
                 self.timed_out = True
-                self.p.kill()
+                self.kill()
 
             timer = threading.Timer(timeout, _kill)
             timer.start()
